@@ -646,3 +646,107 @@ package ring
 //@   copied baseSampler
 //@   shared matrixProba matrixValues invDensity hw
 //@   fresh sample
+
+// ==== abstract (ring-element level) contracts used by Engine B ====
+// A polynomial p has ghost attributes val(p) (ring element, Montgomery factors stripped), mexp(p)
+// (number of factors 2^64 carried) and a domain flag: 0 coefficient domain, 1 NTT domain,
+// 2 "uniform" (a fresh uniform element is uniform in either domain).  These contracts are
+// assumed here; they are the ring-element reading of the coefficient-level contracts above
+// (row-wise congruence on every modulus == equality in Z_Q[X]/(X^N+1), by CRT).
+//@ spec indom(p, flag) = ite(flag, isntt(p), iscoef(p))
+
+//@ afunc Ring.MulCoeffsMontgomery
+//@   trusted ring-element view of mulcoeffsmontgomeryvec on every row
+//@   requires isntt(p1) && isntt(p2)
+//@   assigns p3
+//@   ensures val(p3) == old(val(p1)) * old(val(p2)) && mexp(p3) == old(mexp(p1)) + old(mexp(p2)) - 1 && dom(p3) == 1
+
+//@ afunc Ring.MulCoeffsMontgomeryLazy
+//@   trusted
+//@   requires isntt(p1) && isntt(p2)
+//@   assigns p3
+//@   ensures val(p3) == old(val(p1)) * old(val(p2)) && mexp(p3) == old(mexp(p1)) + old(mexp(p2)) - 1 && dom(p3) == 1
+
+//@ afunc Ring.MulCoeffsMontgomeryThenAdd
+//@   trusted
+//@   requires isntt(p1) && isntt(p2) && isntt(p3) && mexp(p3) == mexp(p1) + mexp(p2) - 1
+//@   assigns p3
+//@   ensures val(p3) == old(val(p3)) + old(val(p1)) * old(val(p2)) && mexp(p3) == old(mexp(p3)) && dom(p3) == 1
+
+//@ afunc Ring.MulCoeffsMontgomeryThenSub
+//@   trusted
+//@   requires isntt(p1) && isntt(p2) && isntt(p3) && mexp(p3) == mexp(p1) + mexp(p2) - 1
+//@   assigns p3
+//@   ensures val(p3) == old(val(p3)) - old(val(p1)) * old(val(p2)) && mexp(p3) == old(mexp(p3)) && dom(p3) == 1
+
+//@ afunc Ring.Add
+//@   trusted
+//@   requires ((isntt(p1) && isntt(p2)) || (iscoef(p1) && iscoef(p2))) && mexp(p1) == mexp(p2)
+//@   assigns p3
+//@   ensures val(p3) == old(val(p1)) + old(val(p2)) && mexp(p3) == old(mexp(p1)) && dom(p3) == ite(old(dom(p1)) == 2, old(dom(p2)), old(dom(p1)))
+
+//@ afunc Ring.Sub
+//@   trusted
+//@   requires ((isntt(p1) && isntt(p2)) || (iscoef(p1) && iscoef(p2))) && mexp(p1) == mexp(p2)
+//@   assigns p3
+//@   ensures val(p3) == old(val(p1)) - old(val(p2)) && mexp(p3) == old(mexp(p1)) && dom(p3) == ite(old(dom(p1)) == 2, old(dom(p2)), old(dom(p1)))
+
+//@ afunc Ring.Neg
+//@   trusted
+//@   assigns p2
+//@   ensures val(p2) == 0 - old(val(p1)) && mexp(p2) == old(mexp(p1)) && dom(p2) == old(dom(p1))
+
+//@ afunc Ring.Reduce
+//@   trusted
+//@   assigns p2
+//@   ensures val(p2) == old(val(p1)) && mexp(p2) == old(mexp(p1)) && dom(p2) == old(dom(p1))
+
+//@ afunc Ring.NTT
+//@   trusted
+//@   requires iscoef(p1)
+//@   assigns p2
+//@   ensures val(p2) == old(val(p1)) && mexp(p2) == old(mexp(p1)) && dom(p2) == 1
+
+//@ afunc Ring.NTTLazy
+//@   trusted
+//@   requires iscoef(p1)
+//@   assigns p2
+//@   ensures val(p2) == old(val(p1)) && mexp(p2) == old(mexp(p1)) && dom(p2) == 1
+
+//@ afunc Ring.INTT
+//@   trusted
+//@   requires isntt(p1)
+//@   assigns p2
+//@   ensures val(p2) == old(val(p1)) && mexp(p2) == old(mexp(p1)) && dom(p2) == 0
+
+//@ afunc Ring.INTTLazy
+//@   trusted
+//@   requires isntt(p1)
+//@   assigns p2
+//@   ensures val(p2) == old(val(p1)) && mexp(p2) == old(mexp(p1)) && dom(p2) == 0
+
+//@ afunc Ring.MForm
+//@   trusted
+//@   assigns p2
+//@   ensures val(p2) == old(val(p1)) && mexp(p2) == old(mexp(p1)) + 1 && dom(p2) == old(dom(p1))
+
+//@ afunc Ring.IMForm
+//@   trusted
+//@   assigns p2
+//@   ensures val(p2) == old(val(p1)) && mexp(p2) == old(mexp(p1)) - 1 && dom(p2) == old(dom(p1))
+
+// ring.Sampler (interface): error / secret samplers.  dist(s) is a ghost field naming the distribution.
+//@ afunc Sampler.AtLevel
+//@   trusted a level view draws from the same distribution
+//@   returns_this
+
+//@ afunc Sampler.Read
+//@   trusted
+//@   assigns pol
+//@   draw dist(this), pol
+//@   ensures mexp(pol) == 0 && dom(pol) == 0
+
+//@ afunc Sampler.ReadAndAdd
+//@   trusted
+//@   requires iscoef(pol) && mexp(pol) == 0
+//@   draw dist(this), pol, add
